@@ -43,6 +43,7 @@ from . import c11_itml          # noqa
 from . import c15_scml          # noqa
 from . import c13_sdml          # noqa
 from . import c14_mmc           # noqa
+from . import c10_gradient      # noqa
 
 
 # every contract contributes a unit to each property it is tagged with (prop=[...])
